@@ -23,7 +23,8 @@ Order == <<"pwd", "v6", "v4", "word", "as">>
 StagesOf(F) == [i \in 1..5 |-> (Order[i] \in F) \/ (Order[i] \in {"v6", "v4"} /\ "ip" \in F)]
 \* line kinds: which sensitive items a line carries (concretized by the harness)
 Kinds == {"blank", "spaces", "plain", "plain-tabs", "pwd", "v4", "v6", "v4-mask", "word", "as", "pwd+v4", "word+as", "v4+as",
-          "pwd-looks-like-v4", "word-in-pwd-line", "v6+v4", "crowded"}
+          "pwd-looks-like-v4", "word-in-pwd-line", "v6+v4", "crowded",
+          "scrubline", "nodigit-pwd", "v4-mask-zeros"}
 ItemsOf(k) ==
   CASE k = "blank" -> << >> [] k = "spaces" -> << >> [] k = "plain" -> <<"p", "p", "p">> [] k = "plain-tabs" -> <<"p", "p">>
     [] k = "pwd" -> <<"p", "pwd">> [] k = "v4" -> <<"p", "p", "v4">> [] k = "v6" -> <<"p", "p", "v6">>
@@ -31,6 +32,9 @@ ItemsOf(k) ==
     [] k = "pwd+v4" -> <<"p", "v4", "p", "pwd">> [] k = "word+as" -> <<"p", "as", "p", "word">> [] k = "v4+as" -> <<"p", "as", "p", "v4", "p", "p">>
     [] k = "pwd-looks-like-v4" -> <<"p", "pwd">> [] k = "word-in-pwd-line" -> <<"p", "word", "p", "pwd">> [] k = "v6+v4" -> <<"p", "v6", "p", "v4">>
     [] k = "crowded" -> <<"word", "v4", "as", "v6", "p", "pwd">>
+    [] k = "scrubline" -> <<"p", "v4", "word", "as", "p", "p", "pwd">>       \* a scrub-mode syntax after other items
+    [] k = "nodigit-pwd" -> <<"p", "p", "pwd">>                              \* no digit on the line before the secret stage
+    [] k = "v4-mask-zeros" -> <<"p", "v4", "p">>                             \* mask spelled with leading zeros
 
 Stage(f, items) == [i \in 1..Len(items) |-> IF items[i] = f THEN f \o "!" ELSE items[i]]
 RECURSIVE Apply(_, _, _)
